@@ -598,7 +598,7 @@ class datetime(object):
         from . import loader
         if isinstance(text, loader.SymText):
             if fmt == '%Y%j %H%M%S%z' and text.kind == 'fmt' and \
-                    text.fmt == '%07d %06d+0000':
+                    text.fmt in ('%07d %06d+0000', '%7d %06d+0000'):
                 jdate, hhmmss = text.args
                 jdate, hhmmss = _I(jdate), _I(hhmmss)
                 y, j = jdate // 1000, jdate % 1000
